@@ -124,7 +124,7 @@ def canon(v, classes, raw=True, kinds=None):
     return f'(unknown {type(v).__name__})'
 
 
-def observe_raw(g, ex, entry, text, pos, timeout=0.25):
+def observe_raw(g, ex, entry, text, pos, timeout=0.25, retry=True):
     """-> canonical x-string: (done true V P) | (done false P) | timeout | (exc Type)"""
     name = ex['rule_names'][entry]
     func = getattr(g, '_try_' + name)
@@ -132,6 +132,8 @@ def observe_raw(g, ex, entry, text, pos, timeout=0.25):
         try:
             st, res, p = with_timeout(lambda: drive(g, func, text, pos), timeout)
         except Timeout:         # a loaded machine, or a genuinely diverging parse: try once more, generously
+            if not retry:
+                raise
             st, res, p = with_timeout(lambda: drive(g, func, text, pos), 3 * timeout)
     except Timeout:
         return 'timeout'
@@ -147,7 +149,7 @@ def observe_raw(g, ex, entry, text, pos, timeout=0.25):
     return f'(done false {p})'
 
 
-def observe_parse(g, ex, entry, text, pos, full, timeout=0.25, module_level=False):
+def observe_parse(g, ex, entry, text, pos, full, timeout=0.25, module_level=False, retry=True):
     """public API -> canonical p-string"""
     name = ex['rule_names'][entry]
     try:
@@ -161,6 +163,8 @@ def observe_parse(g, ex, entry, text, pos, full, timeout=0.25, module_level=Fals
         try:
             v = with_timeout(lambda: f(text, pos, full), timeout)
         except Timeout:
+            if not retry:
+                raise
             v = with_timeout(lambda: f(text, pos, full), 3 * timeout)
         return f'(return {canon(v, ex["classes"], raw=False)})'
     except Timeout:
